@@ -131,16 +131,28 @@ def expected(f, n_files):
 ORDER = {"pre-hook": 0, "add": 1, "commit": 2, "post-hook": 3, "tag": 4, "push": 5}
 
 
+def extras(f):
+    """two variations outside the 311,040 product, derived deterministically from the configuration:
+    hooks given on the command line instead of the config; a VCS tag newer than the config version"""
+    idx = encode(f)
+    return {"hooks_via_cli": (idx // 7) % 2 == 1, "newer_tag": (idx // 11) % 3 == 0}
+
+
+def versions(f):
+    return ("1.2.5", "1.2.6") if extras(f)["newer_tag"] else ("1.2.3", "1.2.4")
+
+
 def build(f):
     vcs = "hg" if f["vcs"] else "git"
+    ex = extras(f)
     c_commit, c_tag, c_push = bool(f["cfg"] & 1), bool(f["cfg"] & 2), bool(f["cfg"] & 4)
     lines = ["[bumpver]", 'current_version = "1.2.3"', 'version_pattern = "MAJOR.MINOR.PATCH"',
              'commit_message = "bump {old_version} -> {new_version}"',
              'tag_message = "%s"' % ("" if not f["tagmsg"] else "release {new_version}"),
              f"commit = {str(c_commit).lower()}", f"tag = {str(c_tag).lower()}", f"push = {str(c_push).lower()}"]
-    if f["pre"]:
+    if f["pre"] and not ex["hooks_via_cli"]:
         lines.append('pre_commit_hook = "hook-pre"')
-    if f["post"]:
+    if f["post"] and not ex["hooks_via_cli"]:
         lines.append('post_commit_hook = "hook-post"')
     lines += ["", "[bumpver.file_patterns]", '"bumpver.toml" = [\'current_version = "{version}"\']',
               '"a.txt" = ["version {version}"]', '"src/b.py" = [\'__version__ = "{version}"\']', ""]
@@ -157,6 +169,11 @@ def build(f):
         args.append("--allow-dirty")
     if f["dry"]:
         args.append("--dry")
+    if ex["hooks_via_cli"]:
+        if f["pre"]:
+            args += ["--pre-commit-hook", "hook-pre"]
+        if f["post"]:
+            args += ["--post-commit-hook", "hook-post"]
     return vcs, files, args
 
 
@@ -178,20 +195,24 @@ def setup_fake(d, f, vcs):
         fake.set_out("branch", "* main 0123abc [origin/main] msg\n" if f["remote"] else "* main 0123abc msg\n")
         if f["remote"]:
             fake.set_out("remote", "git@example.org:x/y.git\n")
-        fake.set_out("tag-list", "0.9.0\n1.0.0\nnot-a-version\n")
+        fake.set_out("tag-list", "0.9.0\n1.0.0\nnot-a-version\n" + ("1.2.5\n" if extras(f)["newer_tag"] else ""))
     else:
         fake.set_out("status", "M other.txt\n" if f["dirty"] else "")
         if f["remote"]:
             fake.set_out("remote", "default = https://example.org/repo\n")
         else:
             fake.set_out("remote", "")
-        fake.set_out("tag-list", "tip 5:abcdef\n1.0.0 3:123456\n")
+        fake.set_out("tag-list", "tip 5:abcdef\n1.0.0 3:123456\n" + ("1.2.5 7:aaaaaa\n" if extras(f)["newer_tag"] else ""))
     return fake
 
 
-def check_trace(ctx, f, evs, res, exp, init_sums, final_sums, n_files, tag, fault_at=None):
+def check_trace(ctx, f, evs, res, exp, init_sums, final_sums, n_files, tag, fault_at=None, tag_new=True):
     """The trace specification. `evs`: event log; returns list of (class, msg)."""
     problems = []
+    # the versions the run announced (Old/New Version records); without a fault they must be the model's
+    vers = (res.record_value("Old Version: "), res.record_value("New Version: "))
+    if fault_at is None and vers != (None, None) and vers != versions(f):
+        problems.append(("announced_versions_differ_from_model", f"{vers} vs {versions(f)}"))
     muts = [(harness.mutating_kind(e), e) for e in evs]
     seq = [(k, e) for k, e in muts if k and k != "fetch"]
     kinds = [k for k, _ in seq]
@@ -202,6 +223,10 @@ def check_trace(ctx, f, evs, res, exp, init_sums, final_sums, n_files, tag, faul
     # (b) dry / rejected: nothing mutating, no hook
     if (f["dry"] or eff is None) and kinds:
         problems.append(("mutation_under_dry_or_rejected", f"{kinds}"))
+    if tag_new is not None and [e for k, e in seq if k == "tag"]:
+        ta = [e for k, e in seq if k == "tag"][0]["argv"]
+        if vers[1] not in ta:
+            problems.append(("tag_name_wrong", f"{ta}"))
     if eff is None:
         non_probe = [e for e in evs if not (e["argv"] and e["argv"][0] in ("rev-parse", "root"))]
         if non_probe:
@@ -240,7 +265,7 @@ def check_trace(ctx, f, evs, res, exp, init_sums, final_sums, n_files, tag, faul
     for k, e in seq:
         if k in ("pre-hook", "post-hook"):
             ctx.count("hook_env_checked")
-            if e["env"].get("BUMPVER_OLD_VERSION") != "1.2.3" or e["env"].get("BUMPVER_NEW_VERSION") != "1.2.4":
+            if (e["env"].get("BUMPVER_OLD_VERSION"), e["env"].get("BUMPVER_NEW_VERSION")) != vers:
                 problems.append(("hook_env_wrong", f"{k}: {e['env']}"))
     # (e) order against file writes (checksums at the moment of each call)
     for k, e in muts:
